@@ -25,7 +25,7 @@ RULE = ("Hypothesis generates error-free determined networks (all cluster types,
 ASSUMPTIONS = ["positional misclosure per type as in the statement's anchor: |l - l0| for lengths, heights, coordinates and their "
                "differences; |angular misclosure| * sight length for directions, angles (backsight), azimuths, zenith angles (slope length)",
                "direction blunders are injected only into sets with >= 3 directions (the orientation is then fixed by the error-free majority)"]
-REQUIRED_CLASSES = ["blunder.excluded", "blunder.kept", "defect.iso", "defect.one", "defect.ghost", "defect.single_dir",
+REQUIRED_CLASSES = ["blunder.excluded", "blunder.kept", "defect.iso", "defect.one", "defect.ghost", "defect.single_dir", "defect.dup_dir", "defect.sdist_unused_z", "t.steep",
                     "t.distance", "t.direction", "t.angle", "t.dh", "t.z-angle", "t.s-distance", "t.azimuth", "t.coords", "t.vector"]
 
 K_ANG = 10.0 * nm.R2G      # cc * m -> mm
@@ -48,7 +48,8 @@ def case(draw):
     blunders = []
     used_dirsets = set()
     for _ in range(nb):
-        ci, oi = draw(st.sampled_from(elig))
+        zen = [(ci_, oi_) for (ci_, oi_) in elig if net["clusters"][ci_]["k"] == "obs" and net["clusters"][ci_]["obs"][oi_]["t"] == "z-angle"]
+        ci, oi = draw(st.sampled_from(zen if (zen and draw(st.integers(0, 2)) == 0) else elig))
         cl = net["clusters"][ci]
         if any(b["ci"] == ci and b["oi"] == oi for b in blunders):
             continue
@@ -67,7 +68,7 @@ def case(draw):
     nd = draw(st.integers(0, 3))
     ids = [p["id"] for p in net["points"]]
     for k in range(nd):
-        kind = draw(st.sampled_from(["iso", "one", "ghost", "single_dir"]))
+        kind = draw(st.sampled_from(["iso", "one", "ghost", "single_dir", "dup_dir", "sdist_unused_z"]))
         d = {"kind": kind, "a": draw(st.sampled_from(ids)), "b": draw(st.sampled_from(ids)),
              "t": draw(st.sampled_from(["distance", "direction", "dh"])), "pos": draw(st.integers(0, 50))}
         defects.append(d)
@@ -109,6 +110,15 @@ def apply_blunders(c):
                 s = sight(net, cl, ob, P)
                 if s < 1e-3:
                     continue
+                # steep sights: aim between the thresholds that the horizontal and the slope length would give
+                # (a formula using the wrong one of them flips the decision there)
+                frm, to = P[cl["from"]], P[ob["bs"] if t == "angle" else ob["to"]]
+                d0 = nm.hdist(frm, to)
+                d3 = math.hypot(d0, to["H"] - frm["H"])
+                if b["all"] and d0 > 1e-3 and d3 / d0 > 1.07:
+                    f = 0.5 * (1.0 + d3 / d0) if t == "z-angle" else 0.5 * (1.0 + d0 / d3)
+                    mis = f * tol * b["sign"]
+                    info.append("steep")
                 ob["e"] = mis * K_ANG / s
             else:
                 if nm.obs_truth(net, cl, ob, P) * 1e3 + mis < 1.0:
@@ -315,13 +325,25 @@ def build(c, force_expected=None):
                 else:
                     dirty["clusters"].append({"k": "obs", "from": d["a"], "from_dh": None, "orient": 0.0, "obs": [ob], "cov": None})
             labels.append("defect.ghost")
-        elif kind == "single_dir":
+        elif kind in ("single_dir", "dup_dir"):
             if not has_xy or d["a"] == d["b"]:
                 continue
-            ob = {"t": "direction", "to": d["b"], "sd": 10.0, "e": 0.0}
+            # a direction set with one target (one reading, or two readings of the same target) has no orientation
+            obs_ = [{"t": "direction", "to": d["b"], "sd": 10.0, "e": 0.0} for _ in range(2 if kind == "dup_dir" else 1)]
             dirty["clusters"].insert(d["pos"] % (len(dirty["clusters"]) + 1),
-                                     {"k": "obs", "from": d["a"], "from_dh": None, "orient": 123.0, "obs": [ob], "cov": None})
-            labels.append("defect.single_dir")
+                                     {"k": "obs", "from": d["a"], "from_dh": None, "orient": 123.0, "obs": obs_, "cov": None})
+            labels.append("defect." + kind)
+        elif kind == "sdist_unused_z":
+            # 2D network: two points carry a height that is neither fixed nor adjusted; a slope distance between them
+            # cannot be used (its height difference is no parameter and no constant of the adjustment)
+            if dims != "2d" or d["a"] == d["b"]:
+                continue
+            Pd = {p["id"]: p for p in dirty["points"]}
+            for q in (d["a"], d["b"]):
+                Pd[q]["give_z"] = True
+            ob = {"t": "s-distance", "to": d["b"], "sd": 6.0, "e": 0.0}
+            dirty["clusters"].append({"k": "obs", "from": d["a"], "from_dh": None, "orient": 0.0, "obs": [ob], "cov": None})
+            labels.append("defect.sdist_unused_z")
     return dirty, clean, expected, exp_removed, labels, info, ambiguous, partial
 
 
@@ -437,6 +459,17 @@ def oracle(c, stats):
                 if key in idents:
                     dup = True
                 idents[key] = (ci, oi, comp)
+    # two observations with the same type and end points cannot be told apart in gama's listing
+    allkeys = []
+    for ci_, cl0_ in enumerate(net0["clusters"]):
+        for ob_ in cl0_["obs"]:
+            if cl0_["k"] == "obs":
+                allkeys.append((ob_["t"], cl0_["from"], ob_["bs"] if ob_["t"] == "angle" else ob_["to"], ob_.get("fs")))
+            elif cl0_["k"] == "hdiff":
+                allkeys.append(("dh", ob_["from"], ob_["to"], None))
+    if any(allkeys.count(w) > 1 for w in set(want) | set(flagged)):
+        stats.label("discarded_duplicate_observation")
+        return []
     if sorted(map(str, flagged)) != sorted(map(str, want)):
         missing = [w for w in want if w not in flagged]
         extra = [f for f in flagged if f not in want]
@@ -581,7 +614,7 @@ def nontrivial(c):
 
 
 PARTS = [
-    Part("exclusions", strategy=case, oracle=oracle, nontrivial=nontrivial, n={"quick": 2500, "thorough": 40000},
+    Part("exclusions", strategy=case, oracle=oracle, nontrivial=nontrivial, n={"quick": 8000, "thorough": 60000},
          sample=lambda c: {"alg": c["alg"], "blunders": c["blunders"], "defects": c["defects"],
                            "gkf": nm.gkf_text(c["net"])[:800]}),
 ]
